@@ -203,16 +203,22 @@ class FnAnalysis:
         if cls:
             own = qual + ':'
             for c in class_chain(cls):
-                for attr, tags in CLASS_ATTRS.get(c, {}).items():
-                    tags = frozenset(t for t in tags if not t.startswith(own))
-                    if tags:
+                for attr, (otags, htags) in CLASS_ATTRS.get(c, {}).items():
+                    otags = frozenset(t for t in otags if not t.startswith(own))
+                    htags = frozenset(t for t in htags if not t.startswith(own))
+                    if otags or htags:
                         cur = self.env.get('self.' + attr, FRESH)
-                        self.env['self.' + attr] = Val(cur.obj | tags, cur.held)
+                        self.env['self.' + attr] = Val(cur.obj | otags, cur.held | htags)
                 for attr in CLASS_LEVEL.get(c, ()):
                     for root in ('self', 'cls', c):
                         cur = self.env.get(root + '.' + attr, FRESH)
                         self.env[root + '.' + attr] = Val(cur.obj | {'@%s.%s' % (c, attr)}, cur.held)
         self.attr_binds = {}    # attr -> qualified aliases bound to self.<attr> anywhere in this method
+        self.fresh_callees = set()
+        self.ndarrays = set()   # local names bound to a freshly allocated ndarray: item assignment copies VALUES into it
+        self.evald = {}         # local name bound to eval(…) -> the library routines named by string constants of this function
+        consts = {n.value for n in ast.walk(fn) if isinstance(n, ast.Constant) and isinstance(n.value, str)}
+        self.named_routines = sorted(c for c in consts if c in summaries and '.' not in c)
         self.ret = set()
         self.writes = {}        # (line, kind, target) -> set of aliases
         self.bindings = {}      # (name, line) -> set of aliases
@@ -293,6 +299,15 @@ class FnAnalysis:
                 return k.value
         return None
 
+    def ctor_data(self, call):
+        """the `data` argument of TimeSeries(data, …)"""
+        d = self.kw(call, 'data')
+        if d is None and call.args:
+            d = call.args[0]
+        if d is None or any(k.arg is None for k in call.keywords) or any(isinstance(a, ast.Starred) for a in call.args):
+            return self.all_args(call)
+        return self.val(d)
+
     def all_args(self, call):
         return self.union(list(call.args) + [k.value for k in call.keywords])
 
@@ -321,6 +336,16 @@ class FnAnalysis:
             sm = ALG_SUMMARIES[f.id]
             return sm, self.bind_args(sm, call, False)
         if name is None:
+            # Class(...) / ts.Class(...): the summary of its __new__ (else __init__), first parameter = the new object
+            cname = f.id if isinstance(f, ast.Name) else (f.attr if isinstance(f, ast.Attribute) and (dotted(f) or '').split('.')[0] in ('ts', 'timeseries') else None)
+            if cname and cname not in self.env and cname in CLASS_BASES:
+                for c in class_chain(cname):
+                    for ctor in ('.__new__', '.__init__'):
+                        sm = self.summaries.get(c + ctor) or CLASS_SUMMARIES.get(c + ctor)
+                        if sm is not None:
+                            params = list(sm.params)[1:]
+                            bound = self.bind_args(Summary(params), call, False)
+                            return sm, bound
             return None, None
         sm = self.summaries[name]
         return sm, self.bind_args(sm, call, is_method)
@@ -345,11 +370,32 @@ class FnAnalysis:
                     bound.setdefault(p, k.value)
         return bound
 
+    def evald_summaries(self, c):
+        f = c.func
+        if isinstance(f, ast.Name) and f.id in self.evald:
+            return [(self.summaries[n], self.bind_args(self.summaries[n], c, False)) for n in self.evald[f.id]]
+        return None
+
     def val_call(self, c):
         f = c.func
+        ev = self.evald_summaries(c)
+        if ev is not None:
+            r = E
+            for sm, bound in ev:
+                for p in sm.ret:
+                    if p in bound:
+                        r |= self.val(bound[p]).reach()
+                r |= frozenset(sm.ret_extra)
+            return Val(r)
         sm, bound = self.local_summary(c)
+        hold = E
+        if (isinstance(f, ast.Name) and f.id in HOLDING_CTORS and f.id not in self.env) or \
+                (isinstance(f, ast.Attribute) and f.attr in HOLDING_CTORS and (dotted(f) or '').split('.')[0] in ('ts', 'timeseries')):
+            hold = view(self.ctor_data(c).reach())
         if sm is not None:
             r = E
+            if hold:
+                return Val(E, hold)
             for p in sm.ret:
                 if p in bound:
                     r |= self.val(bound[p]).reach()
@@ -387,7 +433,7 @@ class FnAnalysis:
                     r |= view(self.all_args(c).reach())
                 return Val(r)
             if f.attr in HOLDING_CTORS and root in ('ts', 'timeseries') and root not in self.env:
-                return Val(E, view(self.all_args(c).reach()))     # the new series wraps the array it is given
+                return Val(E, view(self.ctor_data(c).reach()))     # the new series wraps the array it is given
             if root in FRESH_MODULES and root not in self.env:
                 return FRESH
             recv = self.val(f.value)
@@ -407,7 +453,9 @@ class FnAnalysis:
             return Val(recv.reach() | self.all_args(c).reach())          # unknown method: conservative
         if isinstance(f, ast.Name):
             if f.id in HOLDING_CTORS and f.id not in self.env:
-                return Val(E, view(self.all_args(c).reach()))
+                return Val(E, view(self.ctor_data(c).reach()))
+            if f.id in self.fresh_callees:
+                return FRESH
             if f.id in FRESH_BUILTINS or f.id in IMPORTED_FRESH:
                 return FRESH
             if f.id in CONTAINER_FUNCS:
@@ -425,6 +473,10 @@ class FnAnalysis:
 
     def call_effects(self, c):
         f = c.func
+        for sm, bound in (self.evald_summaries(c) or []):
+            for p in sm.writes:
+                if p in bound:
+                    self.write(c, 'call:' + f.id, bound[p], self.val(bound[p]).reach())
         sm, bound = self.local_summary(c)
         if sm is not None:
             for p in sm.writes:
@@ -470,6 +522,19 @@ class FnAnalysis:
     def bind(self, target, v, value=None, record=True):
         if isinstance(target, ast.Name):
             self.env[target.id] = v
+            if is_fresh_ndarray(value):
+                self.ndarrays.add(target.id)
+            else:
+                self.ndarrays.discard(target.id)
+            if isinstance(value, ast.Attribute) and (dotted(value) or '').split('.')[0] in (FRESH_MODULES - {'utils', 'tsu', 'tsa', 'ts'}) \
+                    and (dotted(value) or '').split('.')[0] not in self.env:
+                self.fresh_callees.add(target.id)          # `fft = fftpack.fft`
+            else:
+                self.fresh_callees.discard(target.id)
+            if isinstance(value, ast.Call) and isinstance(value.func, ast.Name) and value.func.id == 'eval' and self.named_routines:
+                self.evald[target.id] = self.named_routines
+            else:
+                self.evald.pop(target.id, None)
             if record:
                 self.bindings.setdefault((target.id, getattr(target, 'lineno', 0)), set()).update(strip(v.reach()))
         elif isinstance(target, (ast.Tuple, ast.List)):
@@ -487,7 +552,9 @@ class FnAnalysis:
             same = frozenset(x for x in base.obj if not x.endswith('~'))
             if path and path.split('.')[0] in ('self', 'cls') and path.count('.') == 1:
                 self.env[path] = v          # the object remembers what it was given
-                self.attr_binds.setdefault(path.split('.')[1], set()).update(self.qualified(v.reach()))
+                ab = self.attr_binds.setdefault(path.split('.')[1], (set(), set()))
+                ab[0].update(self.qualified(v.obj))
+                ab[1].update(self.qualified(v.held))
                 self.write(target, 'setattr', target, same)
             else:
                 self.write(target, 'setattr', target, same)
@@ -497,7 +564,7 @@ class FnAnalysis:
             base = self.val(target.value)
             self.write(target, 'setitem', target.value, base.obj)
             root = target.value
-            if isinstance(root, ast.Name):      # the container now also holds the stored object
+            if isinstance(root, ast.Name) and root.id not in self.ndarrays:      # the container now also holds the stored object
                 cur = self.env.get(root.id, FRESH)
                 self.env[root.id] = Val(cur.obj, cur.held | v.reach())
 
@@ -632,11 +699,22 @@ HOLDING_CTORS = {'TimeSeries'}     # TimeSeries(data, …) keeps np.asarray(data
 CLASS_BASES = {}
 UTILS_SUMMARIES = {}
 ALG_SUMMARIES = {}
+CLASS_SUMMARIES = {}    # 'Class.method' -> summary, from the files analysed so far
 CLASS_ATTRS = {}        # class -> attr -> {'Class.method:param', '@global', …} bound to self.<attr> in any method
 CLASS_LEVEL = {}        # class -> names assigned to a mutable object in the class body (shared by all instances)
 MODULE_GLOBALS = {}     # module -> names assigned to a mutable object at module level
 SCALAR_TABLES = {}      # module -> module-level dict literals whose values are numbers / strings
 CUR = {'module': None}
+
+
+NDARRAY_ALLOC = {'zeros', 'empty', 'ones', 'zeros_like', 'empty_like', 'ones_like', 'full', 'full_like', 'eye', 'identity', 'arange', 'linspace'}
+
+
+def is_fresh_ndarray(value):
+    if isinstance(value, ast.Call):
+        d = (dotted(value.func) or '').split('.')
+        return len(d) == 2 and d[0] in ('np', 'numpy') and d[1] in NDARRAY_ALLOC
+    return False
 
 
 def class_chain(cls, seen=None):
@@ -660,14 +738,28 @@ def mutable_literal(v):
     return False
 
 
+def stored_into(tree, name):
+    """is there, anywhere in the module, an item assignment / update on the module-level name?"""
+    for n in ast.walk(tree):
+        if isinstance(n, ast.Subscript) and isinstance(n.ctx, (ast.Store, ast.Del)) and isinstance(n.value, ast.Name) and n.value.id == name:
+            return True
+        if isinstance(n, ast.Call) and isinstance(n.func, ast.Attribute) and isinstance(n.func.value, ast.Name) and n.func.value.id == name \
+                and n.func.attr in MUTATING_METHODS:
+            return True
+        if isinstance(n, ast.AugAssign) and isinstance(n.target, ast.Name) and n.target.id == name:
+            return True
+    return False
+
+
 def scan_module_state(mod, tree):
     globs, tables = set(), set()
     for n in tree.body:
         if isinstance(n, ast.Assign) and len(n.targets) == 1 and isinstance(n.targets[0], ast.Name) and not n.targets[0].id.startswith('__'):
             if mutable_literal(n.value):
                 globs.add(n.targets[0].id)
-                if isinstance(n.value, ast.Dict) and all(isinstance(x, (ast.Constant, ast.BinOp, ast.UnaryOp)) for x in n.value.values):
-                    tables.add(n.targets[0].id)
+                if isinstance(n.value, ast.Dict) and n.value.values and all(isinstance(x, (ast.Constant, ast.BinOp, ast.UnaryOp)) for x in n.value.values) \
+                        and not stored_into(tree, n.targets[0].id):
+                    tables.add(n.targets[0].id)       # a table of numbers / strings that nobody adds to
         elif isinstance(n, ast.ClassDef):
             for m in n.body:
                 if isinstance(m, ast.Assign) and len(m.targets) == 1 and isinstance(m.targets[0], ast.Name) and mutable_literal(m.value) \
@@ -717,12 +809,12 @@ def analyse_file(path):
                 summaries[q].ret, summaries[q].writes, summaries[q].ret_extra = ret, wr, extra
                 changed = True
             if cls:
-                for attr, tags in r.attr_binds.items():
-                    cur = CLASS_ATTRS.setdefault(cls, {}).setdefault(attr, set())
-                    new = {t.rstrip('~') for t in tags}
-                    if not new <= cur:
-                        cur |= new
-                        changed = True
+                for attr, (otags, htags) in r.attr_binds.items():
+                    cur = CLASS_ATTRS.setdefault(cls, {}).setdefault(attr, (set(), set()))
+                    for i, new in ((0, otags), (1, htags)):
+                        if not new <= cur[i]:
+                            cur[i].update(new)
+                            changed = True
         if not changed:
             break
     return fns, summaries, results
@@ -736,8 +828,14 @@ def gen_c16alias():
     rows_w, rows_f, rows_b, echo = [], [], [], {}
     parsed = True
     UTILS_SUMMARIES.clear()
+    ALG_SUMMARIES.clear()
+    CLASS_SUMMARIES.clear()
     CLASS_BASES.clear()
-    for path in FILES:
+    CLASS_ATTRS.clear()
+    CLASS_LEVEL.clear()
+    MODULE_GLOBALS.clear()
+    SCALAR_TABLES.clear()
+    for path in ALL_FILES:
         try:
             fns, summaries, results = analyse_file(path)
         except (SyntaxError, OSError, RecursionError) as e:
@@ -746,43 +844,66 @@ def gen_c16alias():
             continue
         if path == 'nitime/utils.py':
             UTILS_SUMMARIES.update({q: sm for q, sm in summaries.items() if '.' not in q})
+        CLASS_SUMMARIES.update({q: sm for q, sm in summaries.items() if '.' in q})
+        if path.startswith('nitime/algorithms/'):
+            for q, sm in summaries.items():
+                if '.' not in q:
+                    ALG_SUMMARIES.setdefault(q, sm)
         mod = path[len('nitime/'):-3].replace('/', '.')
         for q, f, cls in fns:
             r = results[q]
             sm = summaries[q]
-            rows_f.append((mod, q, [p for p in r.params], sorted(sm.ret), sorted(sm.writes), sorted(r.scalars)))
+            meth = q.split('.')[-1] if cls else ''
+            bare = q.split('.')[-1]
+            public = (not bare.startswith('_')) or (bare.startswith('__') and bare.endswith('__'))
+            rows_f.append((mod, q, [p for p in r.params], sorted(sm.ret), sorted(sm.writes), sorted(r.scalars),
+                           sorted(x for x in sm.ret_extra if ':' in x), sorted(x for x in sm.ret_extra if x.startswith('@')), public))
             for (line, kind, target), al in sorted(r.writes.items()):
-                rows_w.append((mod, q, line, kind, target, sorted(x for x in al if x not in ('self', 'cls')), any(x in ('self', 'cls') for x in al)))
+                rows_w.append((mod, q, line, kind, target, sorted(x for x in al if x not in ('self', 'cls') and not x.startswith('@') and ':' not in x),
+                               any(x in ('self', 'cls') for x in al), meth, sorted(x for x in al if x.startswith('@')), sorted(x for x in al if ':' in x)))
             for (name, line), al in sorted(r.bindings.items(), key=lambda kv: (kv[0][1], kv[0][0])):
                 al = sorted(x for x in al if x not in ('self', 'cls'))
                 if al:
                     rows_b.append((mod, q, name, line, al))
-    flagged = [w for w in rows_w if w[5]]
+    flagged = [w for w in rows_w if w[5] or w[9]]
     echo['functions'] = len(rows_f)
     echo['in_place_statements'] = len(rows_w)
-    echo['in_place_on_possible_argument_alias'] = ['%s.%s:%d %s %s <- %s' % (w[0], w[1], w[2], w[3], w[4], w[5]) for w in flagged]
-    echo['returns_may_alias'] = {'%s.%s' % (f[0], f[1]): f[3] for f in rows_f if f[3] and f[0] == 'utils'}
+    echo['in_place_on_possible_argument_alias'] = ['%s.%s:%d %s %s <- %s' % (w[0], w[1], w[2], w[3], w[4], w[5] + w[9]) for w in flagged]
+    echo['returns_may_alias'] = {'%s.%s' % (f[0], f[1]): [x for x in f[3] if x not in ('self', 'cls')] + f[6] + f[7] for f in rows_f
+                                 if f[8] and ([x for x in f[3] if x not in ('self', 'cls')] or f[6] or f[7])}
+    echo['class_attributes_bound_to_arguments'] = {c + '.' + a: sorted(t[0]) + ['holds ' + x for x in sorted(t[1])]
+                                                   for c, d in sorted(CLASS_ATTRS.items()) for a, t in sorted(d.items()) if t[0] or t[1]}
+    echo['module_level_objects'] = {m: sorted(g) for m, g in sorted(MODULE_GLOBALS.items()) if g}
+    echo['class_level_objects'] = {c: sorted(g) for c, g in sorted(CLASS_LEVEL.items()) if g}
     b = lambda v: 'true' if v else 'false'
-    L = ['-- GENERATED by harness/translate_c16.py from ' + ', '.join(FILES) + '. DO NOT EDIT.',
+    L = ['-- GENERATED by harness/translate_c16.py from ' + ', '.join(ALL_FILES) + '. DO NOT EDIT.',
          '-- may-alias analysis: which names can be the caller\'s object, and every in-place statement with its target.',
          'namespace Nitime.Generated.C16Alias', '',
          '/-- an in-place statement (augmented assignment, subscript / attribute assignment, `out=`, mutating method, call of a',
          'routine that writes to its parameter).  `argAliases` = the parameters of `func` (other than `self`) whose object the',
          'target may be — empty: the target is provably a fresh object (or `self`, see `onSelf`) -/',
          'structure Write where', '  module : String', '  func : String', '  line : Nat', '  kind : String', '  target : String',
-         '  argAliases : List String', '  onSelf : Bool', '  deriving Repr, DecidableEq', '',
+         '  argAliases : List String', '  onSelf : Bool',
+         '  /-- bare method name ("" for a module-level function) -/', '  method : String',
+         '  /-- module-level / class-level objects the target may be -/', '  globalAliases : List String',
+         '  /-- parameters of OTHER methods of the class (`Class.method:param`) whose object the target may be, reached through `self.<attr>` -/',
+         '  ctorAliases : List String', '  deriving Repr, DecidableEq', '',
          '/-- summary of a function: parameters, which of them the return value may alias, which of them it writes to,',
          'and which are declared immutable (numbers / flags / strings) -/',
          'structure Fn where', '  module : String', '  func : String', '  params : List String', '  returnsAlias : List String',
-         '  writesParams : List String', '  scalarParams : List String', '  deriving Repr, DecidableEq', '',
+         '  writesParams : List String', '  scalarParams : List String',
+         '  /-- parameters of OTHER methods of the class (`Class.method:param`, reached through `self.<attr>`) the return value may alias -/',
+         '  returnsCtorArg : List String',
+         '  /-- module-level / class-level objects (`@name`) the return value may alias -/', '  returnsGlobal : List String',
+         '  /-- part of the public interface (no leading underscore, or a dunder) -/', '  isPublic : Bool', '  deriving Repr, DecidableEq', '',
          '/-- a local name bound to something that may be a parameter\'s object (names bound to fresh objects are not listed) -/',
          'structure Binding where', '  module : String', '  func : String', '  name : String', '  line : Nat', '  aliases : List String',
          '  deriving Repr, DecidableEq', '',
          '/-- every anchor file parsed -/', 'def parsed : Bool := ' + b(parsed), '',
          'def writes : List Write := [']
-    L.append(',\n'.join('  ⟨"%s", "%s", %d, "%s", %s, %s, %s⟩' % (w[0], w[1], w[2], w[3], lstr([w[4]])[1:-1], lstr(w[5]), b(w[6])) for w in rows_w))
+    L.append(',\n'.join('  ⟨"%s", "%s", %d, "%s", %s, %s, %s, "%s", %s, %s⟩' % (w[0], w[1], w[2], w[3], lstr([w[4]])[1:-1], lstr(w[5]), b(w[6]), w[7], lstr(w[8]), lstr(w[9])) for w in rows_w))
     L += [']', '', 'def fns : List Fn := [']
-    L.append(',\n'.join('  ⟨"%s", "%s", %s, %s, %s, %s⟩' % (f[0], f[1], lstr(f[2]), lstr(f[3]), lstr(f[4]), lstr(f[5])) for f in rows_f))
+    L.append(',\n'.join('  ⟨"%s", "%s", %s, %s, %s, %s, %s, %s, %s⟩' % (f[0], f[1], lstr(f[2]), lstr(f[3]), lstr(f[4]), lstr(f[5]), lstr(f[6]), lstr(f[7]), b(f[8])) for f in rows_f))
     L += [']', '', 'def bindings : List Binding := [']
     L.append(',\n'.join('  ⟨"%s", "%s", "%s", %d, %s⟩' % (x[0], x[1], x[2], x[3], lstr(x[4])) for x in rows_b))
     L += [']', '', 'end Nitime.Generated.C16Alias', '']
